@@ -12,12 +12,14 @@ EDITORS = ["update_base_search", "clear_search", "update_unencoded_base_hash", "
            # the public component setters, against Model/AggSetters.lean (precondition + encode + editor + limit check)
            "set_username", "set_password", "set_search", "set_hash", "set_port", "set_protocol",
            # the path builder of the single buffer, against Model/AggPath.lean (Props/C07.consume_prepared_path_is_path_state)
-           "consume_prepared_path", "consume_prepared_path"]
+           "consume_prepared_path", "consume_prepared_path",
+           # clear_pathname and the pathname setter on top of it (Model/AggPath.lean, Props/C03.aggregator_set_pathname_end_to_end)
+           "clear_pathname", "set_pathname", "set_pathname"]
 
 # the raw scheme editors leave `type` stale (parse_scheme_with_colon updates it itself); the setter-level operations that read
 # `type` (default port, special-ness of the current scheme) are therefore not compared after one of them
 RAW_SCHEME = ("set_scheme", "set_scheme_from_view_with_colon")
-READS_TYPE = ("set_port", "consume_prepared_path")
+READS_TYPE = ("set_port", "consume_prepared_path", "set_pathname")
 
 
 def gen_arg(rng, ed):
@@ -42,6 +44,13 @@ def gen_arg(rng, ed):
     if ed == "consume_prepared_path":
         import pathcorr
         return pathcorr.gen_input(rng)
+    if ed == "set_pathname":
+        import pathcorr
+        r = rng.random()
+        if r < 0.25:
+            return rng.choice([b"", b"/", b"//", b"//x", b"/.//x", b"\\x", b"/\\x", b"x", b"\t", b"\t/\n/p", b"/a/../..//b", b"//a/..", b"/..//", b"?", b"#"])
+        lead = rng.choice([b"", b"/", b"/", b"\\", b"//", b"\t/"])
+        return lead + pathcorr.gen_input(rng)
     if ed == "set_port":
         return rng.choice([b"", b"0", b"80", b"443", b"21", b"8080", b"65535", b"65536", b"99999999999", b"8a", b"a8", b" 81", b"8\t1",
                            b"0080", b"00000000000000000443", b"-1", b"+1", b"1:2", b"1/", str(rng.randrange(70000)).encode()])
